@@ -1142,7 +1142,8 @@ class AbstractCircuit(abc.ABC):
         if n > 10:
             raise ValueError(f"{n} > 10 qubits is too many to compute superoperator")
 
-        circuit_superoperator = np.eye(4**n)
+        dimension = int(np.prod([q.dimension for q in all_qubits], dtype=np.int64))
+        circuit_superoperator = np.eye(dimension**2)
         for moment in self:
             full_moment = moment.expand_to(all_qubits)
             moment_superoperator = full_moment._superoperator_()
